@@ -998,6 +998,11 @@ func c08Items(tier string) []pipeItem {
 	for _, o := range [][]string{{"dataA-long", "dataB-short", "dataA-mid"}, {"dataB-short", "dataA-mid", "dataA-long"}} {
 		out = append(out, pipeItem{"v5 two workers " + strings.Join(o, ","), pipeRun{proto: ppV5, workers: 2, seq: seqOf(al, o...)}, b})
 	}
+	// a stray datagram that is not NetFlow v5 (or cut short) first: whatever the worker does with its buffer on that path
+	// must not reach the datagrams behind it
+	for _, w := range []int{1, 2} {
+		out = append(out, pipeItem{fmt.Sprintf("v5 %d worker(s), a stray non-v5 datagram and a truncated one before the burst", w), pipeRun{proto: ppV5, workers: w, seq: seqOf(al, "wrong-version", "dataA-long", "truncated", "dataB-short", "dataA-mid")}, b})
+	}
 	return out
 }
 
